@@ -8,6 +8,7 @@
 //! Fields:   strings are `x<hex of utf-8 bytes>` (empty string = `x`), numbers are decimal.
 //! Response: op specific; `PANIC x<hex msg>` if the op panicked; `ERR x<hex msg>` on a
 //!           malformed request.
+//! The calling process is pinned by the environment variable DELTA_VERIF_HOOK_CALLER.
 //! `cfg <xarg> <xarg> ...` builds a Config from command-line arguments (with
 //! --no-gitconfig) and makes it the current one for later ops; response `ok`.
 #![allow(dead_code)]
@@ -124,6 +125,11 @@ fn dispatch(line: &str) -> Result<String, String> {
 }
 
 pub fn run() -> std::io::Result<i32> {
+    // No process-table scan in the driver: the calling process is what DELTA_VERIF_HOOK_CALLER
+    // says (shell words, e.g. `git blame f.rs`; unset or unrecognised = none).
+    let caller = std::env::var("DELTA_VERIF_HOOK_CALLER").unwrap_or_default();
+    let words = shell_words::split(&caller).unwrap_or_default();
+    crate::utils::process::verif_force_calling_process(&words);
     // Panics are reported on the response line; keep stderr quiet.
     std::panic::set_hook(Box::new(|_| {}));
     let stdin = std::io::stdin();
